@@ -1,6 +1,8 @@
 package main
 
 import (
+	"fmt"
+
 	"golang.org/x/tools/go/ssa"
 )
 
@@ -122,4 +124,219 @@ func argIs(args []ssa.Value, v ssa.Value) bool {
 		}
 	}
 	return false
+}
+
+// syncHigherOrder: library functions that run a function argument synchronously, in place, and do
+// not retain it (the models execute the closure inline).
+var syncHigherOrder = map[string]bool{
+	"(*go.etcd.io/bbolt.DB).View":    true,
+	"(*go.etcd.io/bbolt.DB).Update":  true,
+	"(*go.etcd.io/bbolt.Tx).ForEach": true,
+	"(*sync.Once).Do":                true,
+}
+
+// sharedCellKey: a captured local whose address is only ever loaded from, stored to, or bound into
+// closures that run in place (called directly, deferred, or handed to a synchronous higher-order
+// library function) is modelled as one named cell shared by the function and those closures. The key
+// is the same for the variable itself and for the free variables bound to it.
+func sharedCellKey(v ssa.Value) (string, bool) {
+	a := rootAlloc(v, 0)
+	if a == nil || !a.Heap {
+		return "", false
+	}
+	if !cellPrivate(a, map[ssa.Value]bool{}) {
+		return "", false
+	}
+	return fmt.Sprintf("pc.%s.%s.%d", a.Parent().Name(), a.Comment, int(a.Pos())), true
+}
+
+// rootAlloc resolves a free variable to the variable it is bound to (unique creation site).
+func rootAlloc(v ssa.Value, depth int) *ssa.Alloc {
+	if depth > 8 {
+		return nil
+	}
+	switch x := v.(type) {
+	case *ssa.Alloc:
+		return x
+	case *ssa.FreeVar:
+		fn := x.Parent()
+		parent := fn.Parent()
+		if parent == nil {
+			return nil
+		}
+		idx := -1
+		for i, fv := range fn.FreeVars {
+			if fv == x {
+				idx = i
+			}
+		}
+		var found ssa.Value
+		for _, b := range parent.Blocks {
+			for _, in := range b.Instrs {
+				if mc, ok := in.(*ssa.MakeClosure); ok && mc.Fn == fn {
+					if idx < 0 || idx >= len(mc.Bindings) {
+						return nil
+					}
+					if found != nil && found != mc.Bindings[idx] {
+						return nil
+					}
+					found = mc.Bindings[idx]
+				}
+			}
+		}
+		if found == nil {
+			return nil
+		}
+		return rootAlloc(found, depth+1)
+	}
+	return nil
+}
+
+func cellPrivate(v ssa.Value, seen map[ssa.Value]bool) bool {
+	if seen[v] {
+		return true
+	}
+	seen[v] = true
+	refs := v.Referrers()
+	if refs == nil {
+		return false
+	}
+	for _, r := range *refs {
+		switch x := r.(type) {
+		case *ssa.DebugRef:
+		case *ssa.UnOp:
+		case *ssa.Store:
+			if x.Val == v {
+				return false
+			}
+		case *ssa.MakeClosure:
+			fn, _ := x.Fn.(*ssa.Function)
+			if fn == nil {
+				return false
+			}
+			for i, b := range x.Bindings {
+				if b == v {
+					if i >= len(fn.FreeVars) || !cellPrivate(fn.FreeVars[i], seen) {
+						return false
+					}
+				}
+			}
+			if !closureRunsInPlace(x) {
+				return false
+			}
+		default:
+			return false
+		}
+	}
+	return true
+}
+
+// closureRunsInPlace: the closure value is only called, deferred, parked in a local that is only
+// called, or passed to a synchronous higher-order library function.
+func closureRunsInPlace(v ssa.Value) bool {
+	refs := v.Referrers()
+	if refs == nil {
+		return false
+	}
+	for _, r := range *refs {
+		switch x := r.(type) {
+		case *ssa.DebugRef:
+		case *ssa.Call:
+			if x.Call.Value == v && !argIs(x.Call.Args, v) {
+				continue
+			}
+			if f := x.Call.StaticCallee(); f != nil && syncHigherOrder[fullKeyOfFunc(f)] {
+				continue
+			}
+			return false
+		case *ssa.Defer:
+			if x.Call.Value != v || argIs(x.Call.Args, v) {
+				return false
+			}
+		case *ssa.Store:
+			if x.Val != v {
+				continue
+			}
+			p, ok := x.Addr.(*ssa.Alloc)
+			if !ok {
+				return false
+			}
+			prefs := p.Referrers()
+			if prefs == nil {
+				return false
+			}
+			for _, pr := range *prefs {
+				switch y := pr.(type) {
+				case *ssa.DebugRef:
+				case *ssa.Store:
+					if y.Val == p {
+						return false
+					}
+				case *ssa.UnOp:
+					if !closureRunsInPlace(y) {
+						return false
+					}
+				default:
+					return false
+				}
+			}
+		default:
+			return false
+		}
+	}
+	return true
+}
+
+// cellsWritten: keys of the shared cells stored to by the given blocks of fn, or by any closure
+// created or called there (transitively). unknown=true if some store target cannot be resolved.
+func cellsWritten(fn *ssa.Function, blocks map[*ssa.BasicBlock]bool, out map[string]bool, seen map[*ssa.Function]bool, depth int) {
+	if depth > 6 {
+		return
+	}
+	for _, b := range fn.Blocks {
+		if blocks != nil && !blocks[b] {
+			continue
+		}
+		for _, in := range b.Instrs {
+			switch x := in.(type) {
+			case *ssa.Store:
+				if k, ok := sharedCellKey(x.Addr); ok {
+					out[k] = true
+				}
+			case *ssa.MakeClosure:
+				if f, ok := x.Fn.(*ssa.Function); ok && !seen[f] {
+					seen[f] = true
+					cellsWritten(f, nil, out, seen, depth+1)
+				}
+			case ssa.CallInstruction:
+				// a closure parked in a local and called here: its creation site is in this function or an
+				// enclosing one; be conservative and scan every closure nested in the outermost function
+				if x.Common().StaticCallee() == nil && !x.Common().IsInvoke() {
+					root := fn
+					for root.Parent() != nil {
+						root = root.Parent()
+					}
+					var all func(f *ssa.Function)
+					all = func(f *ssa.Function) {
+						for _, af := range f.AnonFuncs {
+							if !seen[af] {
+								seen[af] = true
+								cellsWritten(af, nil, out, seen, depth+1)
+							}
+							all(af)
+						}
+					}
+					all(root)
+				} else if f := x.Common().StaticCallee(); f != nil && f.Parent() != nil && !seen[f] {
+					seen[f] = true
+					cellsWritten(f, nil, out, seen, depth+1)
+				}
+			}
+		}
+	}
+}
+
+func sharedCell(a *ssa.Alloc) bool {
+	_, ok := sharedCellKey(a)
+	return ok
 }
